@@ -73,6 +73,8 @@ def universe():
             "/orders": {"$ref": "#/components/x-path-items/Orders"},
             "/orders/{oid}": {"get": {"operationId": "getOrder", "tags": ["orders"], "parameters": [docs.int_param("oid", "path")], "responses": copy.deepcopy(ok)}},
             "/status": {"get": {"operationId": "status", "responses": copy.deepcopy(ok)}},
+            # differs from /status only by letter case: name and path filters are case-sensitive
+            "/Status": {"get": {"operationId": "statusUpper", "responses": copy.deepcopy(ok)}},
         },
         components={
             "requestBodies": {"UserBody": dict(copy.deepcopy(body), **{"x-internal": True})},
@@ -115,6 +117,9 @@ SINGLE_FILTERS = [
     {"name": "GET /users/{id}"},
     {"name": ["POST /users", "POST /orders"]},
     {"name_regex": "orders"},
+    {"name_regex": "^GET /status$"},
+    {"name_regex": "/Stat"},
+    {"path_regex": "^/status"},
     {"tag": "admin"},
     {"tag": ["orders", "users"]},
     {"tag_regex": "^a"},
@@ -490,7 +495,7 @@ def run_shard(spec, emit):
             emit.count({"cli": "cli_translations", "api": "api_filter_sets", "api-forked": "api_forked_filter_sets"}[via])
             if "transitions" in obs:
                 emit.count("state_machines_built")
-            nontrivial = 0 < len(expected) < 7
+            nontrivial = 0 < len(expected) < 8
             sample = None
             if nontrivial and samples < 2 and via == "api":
                 samples += 1
@@ -500,7 +505,7 @@ def run_shard(spec, emit):
                 emit.viol(key + (":cli" if via == "cli" else ":forked" if via == "api-forked" else ""), what, {"include": includes, "exclude": excludes, "via": via})
         # sampled full runs
         ref = selection.selected(doc, includes, excludes)
-        if ref and 0 < len(ref[0]) < 7 and engine_budget > 0 and rng.random() < 0.5:
+        if ref and 0 < len(ref[0]) < 8 and engine_budget > 0 and rng.random() < 0.5:
             engine_budget -= 1
             via_cli = rng.random() < 0.4
             result = engine_run(doc, includes, excludes, seed + 1, via_cli)
@@ -517,7 +522,7 @@ def run_shard(spec, emit):
                     emit.viol(key, what, {"include": includes, "exclude": excludes, "via": "cli-run" if via_cli else "api-run"})
             elif result is not None:
                 emit.inconclusive("watchdog fired in engine run")
-        if ref and 0 < len(ref[0]) < 7 and pytest_budget > 0 and rng.random() < 0.3:
+        if ref and 0 < len(ref[0]) < 8 and pytest_budget > 0 and rng.random() < 0.3:
             pytest_budget -= 1
             scratch = tempfile.mkdtemp(prefix="verif-c07-")
             try:
